@@ -101,6 +101,7 @@ func (r *Reader) unindexedIterator(opts *ReadOptions) *unindexedMessageIterator 
 		topics:           topicMap,
 		start:            opts.StartNanos,
 		end:              opts.EndNanos,
+		noEnd:            opts.unboundedEnd(),
 		metadataCallback: opts.MetadataCallback,
 	}
 }
@@ -120,6 +121,7 @@ func (r *Reader) indexedMessageIterator(
 		topics:           topicMap,
 		start:            opts.StartNanos,
 		end:              opts.EndNanos,
+		noEnd:            opts.unboundedEnd(),
 		order:            opts.Order,
 		metadataCallback: opts.MetadataCallback,
 	}
